@@ -26,9 +26,12 @@ pub enum Site {
     Targets,
     Deleg1,
     Deleg2,
+    /// root N+1 keeps root N's root role entry (key ids, threshold) unchanged but its key table
+    /// omits the keys whose signatures were needed to satisfy root N: judged under its own table
+    RootSameRole,
 }
 
-pub const SITES: [Site; 8] = [
+pub const SITES: [Site; 9] = [
     Site::ShippedRoot,
     Site::RootOldKeys,
     Site::RootNewKeys,
@@ -37,6 +40,7 @@ pub const SITES: [Site; 8] = [
     Site::Targets,
     Site::Deleg1,
     Site::Deleg2,
+    Site::RootSameRole,
 ];
 
 #[derive(Clone, Copy, Debug, Serialize, Deserialize, PartialEq, Eq)]
@@ -226,7 +230,7 @@ fn build_world(sc: &Sc) -> World {
         _ => r1.targets.keys.push(other_role_for_root_table.clone()),
     }
     match sc.site {
-        Site::ShippedRoot | Site::RootOldKeys => r1.root = site_rk.clone(),
+        Site::ShippedRoot | Site::RootOldKeys | Site::RootSameRole => r1.root = site_rk.clone(),
         Site::Timestamp => r1.timestamp = site_rk.clone(),
         Site::Snapshot => r1.snapshot = RoleKeys { keys: site_rk.keys.clone(), threshold: sc.threshold },
         Site::Targets => r1.targets = site_rk.clone(),
@@ -248,7 +252,7 @@ fn build_world(sc: &Sc) -> World {
     // ---- root(s)
     let mut r1_signed = r1.signed();
     let role_name_in_root = match sc.site {
-        Site::ShippedRoot | Site::RootOldKeys => Some("root"),
+        Site::ShippedRoot | Site::RootOldKeys | Site::RootSameRole => Some("root"),
         Site::Timestamp => Some("timestamp"),
         Site::Snapshot => Some("snapshot"),
         Site::Targets => Some("targets"),
@@ -272,7 +276,7 @@ fn build_world(sc: &Sc) -> World {
         api = (shipped.clone(), shipped.clone(), "root".into());
     }
     let mut final_root = r1.clone();
-    if matches!(sc.site, Site::RootOldKeys | Site::RootNewKeys) {
+    if matches!(sc.site, Site::RootOldKeys | Site::RootNewKeys | Site::RootSameRole) {
         let mut r2 = r1.clone();
         r2.version = 2;
         let k_root2 = keys::ed(w, 5);
@@ -286,6 +290,35 @@ fn build_world(sc: &Sc) -> World {
             sigs.push(sign_with(&r2_signed, &k_root2));
             doc = Doc { signed: r2_signed.clone(), sigs };
             api = (shipped.clone(), doc.bytes(), "root".into());
+        } else if sc.site == Site::RootSameRole {
+            r2_signed = r2.signed();
+            if has_missing {
+                add_missing_keyid(&mut r2_signed, &["roles", "root"], &sk.missing.id);
+            }
+            // which keys count is a function of the word alone
+            let (_, truth) = build_sigs(&r2_signed, &sk, &sc.word);
+            judge(&truth);
+            // bridging keys: authorised keys that did not validly sign under the word; they sign
+            // too (so that root 1's threshold is met) but root 2's key table no longer has them
+            let mut bridge: Vec<K> = Vec::new();
+            for k in &sk.auth {
+                if (truth.len() + bridge.len()) as u64 >= sc.threshold {
+                    break;
+                }
+                if !truth.contains(&k.id) && !bridge.iter().any(|b| b.id == k.id) {
+                    bridge.push(k.clone());
+                }
+            }
+            if let Some(J::Obj(table)) = r2_signed.get_mut("keys") {
+                table.retain(|(id, _)| !bridge.iter().any(|b| b.id == *id));
+            }
+            let (mut sigs, _) = build_sigs(&r2_signed, &sk, &sc.word);
+            for b in &bridge {
+                sigs.push(sign_with(&r2_signed, b));
+            }
+            doc = Doc { signed: r2_signed.clone(), sigs };
+            let b = doc.bytes();
+            api = (b.clone(), b, "root".into());
         } else {
             r2.root = site_rk.clone();
             r2_signed = r2.signed();
@@ -417,7 +450,7 @@ fn api_verdict(site: Site, api: &(Vec<u8>, Vec<u8>, String)) -> Option<bool> {
     use tough::schema::{Root, Signed, Snapshot, Targets, Timestamp};
     let (delegator, doc, name) = api;
     match site {
-        Site::ShippedRoot | Site::RootOldKeys | Site::RootNewKeys => {
+        Site::ShippedRoot | Site::RootOldKeys | Site::RootNewKeys | Site::RootSameRole => {
             let d: Signed<Root> = serde_json::from_slice(delegator).ok()?;
             let x: Signed<Root> = serde_json::from_slice(doc).ok()?;
             Some(d.signed.verify_role(&x).is_ok())
@@ -465,7 +498,7 @@ impl Check for C01 {
         "C01"
     }
     fn rule(&self) -> String {
-        "one verification site (8) x key set (1..4 keys, ed25519/ecdsa/rsa mixed) x threshold 1..4 x signature word of length 0..5 over the 7-letter alphabet of the property; thorough enumerates all 19608 words x 8 sites x 16 (keys,threshold) shapes before the seeded runs; non-trivial = the word contains at least one letter other than a first valid signature and the site's document was fetched; distinct = distinct canonical trace".into()
+        "one verification site (9: shipped root, root N+1 under old keys, under new keys, under an unchanged root role entry with a pruned key table, timestamp, snapshot, targets, delegated depth 1 and 2) x key set (1..4 keys, ed25519/ecdsa/rsa mixed) x threshold 1..4 x signature word of length 0..5 over the 7-letter alphabet of the property; thorough enumerates all 19608 words x 9 sites x 16 (keys,threshold) shapes before the seeded runs; non-trivial = the word contains at least one letter other than a first valid signature and the site's document was fetched; distinct = distinct canonical trace".into()
     }
     fn assumptions(&self) -> Vec<String> {
         vec![
@@ -486,7 +519,7 @@ impl Check for C01 {
     fn enumerated(&self, tier: Tier) -> u64 {
         match tier {
             Tier::Quick => 0,
-            Tier::Thorough => N_WORDS * 8 * 16,
+            Tier::Thorough => N_WORDS * SITES.len() as u64 * 16,
         }
     }
     fn exhaustive(&self, tier: Tier) -> bool {
@@ -495,8 +528,8 @@ impl Check for C01 {
     fn enumerate(&self, index: u64, _tier: Tier) -> Option<Sc> {
         let wi = index % N_WORDS;
         let rest = index / N_WORDS;
-        let site = SITES[(rest % 8) as usize];
-        let shape = rest / 8;
+        let site = SITES[(rest % SITES.len() as u64) as usize];
+        let shape = rest / SITES.len() as u64;
         let nkeys = 1 + (shape % 4) as usize;
         let threshold = 1 + (shape / 4) % 4;
         let mut r = Rng::new(crate::prng::mix(0xC01, index));
@@ -580,7 +613,7 @@ impl Check for C01 {
 
         // oracle
         let site_doc_trusted = match (&res, sc.site) {
-            (Ok(v), Site::RootOldKeys | Site::RootNewKeys) => *v == 2,
+            (Ok(v), Site::RootOldKeys | Site::RootNewKeys | Site::RootSameRole) => *v == 2,
             (Ok(_), _) => true,
             (Err(_), _) => false,
         };
@@ -598,7 +631,7 @@ impl Check for C01 {
                 ),
                 Err((c, v)) => o.harness(format!("clean world failed with non-signature error {v} ({})", c.name())),
                 Ok(v) => {
-                    if matches!(sc.site, Site::RootOldKeys | Site::RootNewKeys) && *v != 2 {
+                    if matches!(sc.site, Site::RootOldKeys | Site::RootNewKeys | Site::RootSameRole) && *v != 2 {
                         o.violate(format!("threshold-met-rejected:{:?}", sc.site), "properly signed newer root was not adopted");
                     }
                     o.probe("accepted_with_threshold_met");
